@@ -18,7 +18,7 @@ VERIF = os.path.dirname(os.path.dirname(os.path.abspath(__file__)))
 SEEDED = os.path.join(VERIF, 'seeded')
 
 # seeds that are caught by the check of a neighbouring property (the observable they break belongs to that check's harness)
-OTHER_CHECK = {'C02-e': ['C03'], 'C03-d': ['C11'], 'C03-g': ['C11'], 'C04-g': ['C10'], 'C10-h': ['C01'], 'C17-h': ['C08'], 'C19-h': ['C02'], 'C14-j': ['C13'], 'C15-l': ['C09'], 'C04-n': ['C03'], 'C04-r': ['C02'], 'C04-s': ['C02']}
+OTHER_CHECK = {'C02-e': ['C03'], 'C03-d': ['C11'], 'C03-g': ['C11'], 'C04-g': ['C10'], 'C10-h': ['C01'], 'C17-h': ['C08'], 'C19-h': ['C02'], 'C14-j': ['C13'], 'C15-l': ['C09'], 'C04-n': ['C03'], 'C04-r': ['C02'], 'C04-s': ['C02'], 'C02-t': ['C01'], 'C11-t': ['C03'], 'C14-t': ['C13']}
 # seeds no check can reach, with the reason (also in DESIGN.md 8.5)
 OUT_OF_REACH = {
     'C07-e': 'needs a second thread removing a registration between two plain statements of remove_header_callback; the property quantifies over '
